@@ -62,7 +62,7 @@ def patience(ctx, P, iters):
             if none is True:
                 okp = okp and val.lower().replace('"', "'") == "float('inf')"
             elif none is False:
-                okp = okp and val in ("self.increment_time(self.now,%s.sample(t=self.now,ind=%s))" % (dname, tok), "self.now+%s.sample(t=self.now,ind=%s)" % (dname, tok))
+                okp = okp and rules.sum_terms(rv.d["value_node"]) == sorted(["self.now", "%s.sample(t=self.now,ind=%s)" % (dname, tok)])
             else:
                 okp = False
         if not okp or np_ != 2:
